@@ -293,7 +293,16 @@ func genRot(w *bufio.Writer, r *rand.Rand, n int) {
 		buf = append(buf, c[1:]...)
 		if r.Intn(12) == 0 {
 			// offsets just below 2^64: j*M is the largest multiple of M that keeps off+k+j*M below 2^64
-			ju := (^uint64(0) - uint64(m)) / uint64(m)
+			// (never beyond 2^64 - 1: such an offset cannot be passed to the API at all)
+			maxoff := int64(0)
+			pos := 9
+			for pos+2 < len(c) {
+				if c[pos+2] > maxoff {
+					maxoff = c[pos+2]
+				}
+				pos += 3 + 6*int(c[pos])
+			}
+			ju := (^uint64(0) - uint64(maxoff) - uint64(k)) / uint64(m)
 			w.WriteString("4 " + strconv.FormatInt(k, 10) + " " + strconv.FormatUint(ju, 10))
 			for _, v := range c[1:] {
 				w.WriteByte(' ')
